@@ -220,6 +220,10 @@ __CPROVER_ensures(_this->offs <= _this->storage && _this->end_offs <= _this->sto
 __CPROVER_ensures(_this->error == 0 || _this->error == -1)
 __CPROVER_ensures(__CPROVER_old(_this->error) == -1 ==> _this->error == -1)
 __CPROVER_ensures(_this->buf == __CPROVER_old(_this->buf) && _this->storage == __CPROVER_old(_this->storage))
+/* everything buffered for carry propagation has been pushed to the byte output (written, or the error flag raised) */
+__CPROVER_ensures(_this->ext == 0)
+__CPROVER_ensures((__CPROVER_old(_this->rem) >= 0 || __CPROVER_old(_this->ext) > 0) ==> _this->rem >= 0)
+__CPROVER_ensures((_this->error == 0 && (__CPROVER_old(_this->rem) >= 0 || __CPROVER_old(_this->ext) > 0)) ==> _this->offs > __CPROVER_old(_this->offs))
 ;
 
 void ec_enc_init(ec_enc *_this, unsigned char *_buf, opus_uint32 _size)
